@@ -79,7 +79,7 @@ func c07AppRecords(ev []ref.WireEvent, fromClient bool) int {
 
 func runC07TLS(c *Ctx, pki *tlsPKI) {
 	rep := c.Rep
-	kinds := []string{"flip", "flip", "flip", "flip", "truncate", "extend", "swap", "dup", "drop", "inject-reverse", "inject-foreign", "hdr-type", "hdr-version", "hdr-length", "eos"}
+	kinds := []string{"flip", "flip", "flip", "flip", "truncate", "extend", "swap", "dup", "drop", "inject-reverse", "inject-foreign", "hdr-type", "hdr-version", "hdr-length", "eos", "inject-empty"}
 	perWrite := map[string]int{}
 	for _, m := range c07TLSModes {
 		// control: no fault, three writes each way; everything arrives; q = records per Write
